@@ -408,11 +408,15 @@ impl Format {
                     } else {
                         365.0
                     };
+                // A month or a day given next to the day of year is not used, but it must still be a valid date
+                // (a parsed month or day is never zero).
+                let month = if decomposed[1] == 0 { 1 } else { decomposed[1] };
+                let day = if decomposed[2] == 0 { 1 } else { decomposed[2] };
                 if !(1.0..days_in_year + 1.0).contains(&days)
                     || !crate::epoch::is_gregorian_valid(
                         decomposed[0],
-                        1,
-                        1,
+                        month.try_into().unwrap(),
+                        day.try_into().unwrap(),
                         decomposed[3].try_into().unwrap(),
                         decomposed[4].try_into().unwrap(),
                         decomposed[5].try_into().unwrap(),
